@@ -88,7 +88,7 @@ var intAtoms = []struct {
 	src string
 	v   int64
 }{{"a", 7}, {"b", 2}, {"c", -3}, {"n1", 1}, {"li[0]", 3}, {"st.A", 5}, {"(a)", 7}, {"add3(a, 0, 0)", 7}, {"li[2]", 4},
-	{"bi", 9007199254740993}, {"bj", 9007199254740992}, {"bi", 9007199254740993}, {"bm", 9223372036854775807}, {"bn", -9223372036854775808}}
+	{"café", 6}, {"数", 8}, {"bi", 9007199254740993}, {"bj", 9007199254740992}, {"bi", 9007199254740993}, {"bm", 9223372036854775807}, {"bn", -9223372036854775808}}
 var floatAtoms = []struct {
 	src string
 	v   float64
@@ -391,7 +391,7 @@ func genExprCase(r *h.Rand) h.Case {
 	src := g.print(root, r.Chance(50))
 	p := newProg(r)
 	p.esc = "html"
-	p.vars = sx.L(bind("a", vInt(7)), bind("b", vInt(2)), bind("c", vInt(-3)), bind("n1", vInt(1)), bind("x", vFloat(1.5)),
+	p.vars = sx.L(bind("a", vInt(7)), bind("café", vInt(6)), bind("数", vInt(8)), bind("b", vInt(2)), bind("c", vInt(-3)), bind("n1", vInt(1)), bind("x", vFloat(1.5)),
 		bind("bi", vInt(9007199254740993)), bind("bj", vInt(9007199254740992)), bind("bm", vInt(9223372036854775807)), bind("bn", vInt(-9223372036854775808)),
 		bind("li", vSliceT(vInt(3), vInt(0), vInt(4))), bind("ls", vSliceT(vStr("l0"), vStr(""), vStr("z"))),
 		bind("st", vT1(5, "B", vSliceI(), vMapI(), vPtr("T1", nil), vInt(0))),
